@@ -333,9 +333,39 @@ def design_check(pid, tier, kinds, over=None, invs=ALL_INV, props=ALL_PROP, time
     return res, None
 
 
+GEN_KINDS = ['Handshake', 'Bad', 'KeepAlive', 'Choke', 'Unchoke', 'Interested', 'NotInterested', 'Cancel', 'Have', 'Bitfield', 'Request', 'Piece']
+
+
+def model_scripts(pid, n, kinds=None, fuel=7):
+    """behaviours of the bounded model generated by TLC -simulate; returns scenario dicts"""
+    cfg = os.path.join(outdir(pid), 'gen.cfg')
+    with open(cfg, 'w') as f:
+        f.write('SPECIFICATION GSpec\nCONSTANTS\n  Peers = {a, b}\n  NPieces = 2\n  NBlocks <- NB21\n  EndGame = 2\n  MaxUnchoked = 1\n  OptRounds = 3\n'
+                '  KALimit = 2\n  Pipeline = {2}\n  Rates = {0}\n  Fuel = %d\n  ConnFuel = 2\n  TickFuel = 0\n  MaxQ = 2\n  HS0 = FALSE\n'
+                '  BFMenu = {{1, 2}, {1}, {2}, {}}\n  FrameKinds = {%s}\nINVARIANTS Emit NoPanic ReservedBacked OwnedImpliesStored\nCHECK_DEADLOCK FALSE\n'
+                % (fuel, ', '.join('"%s"' % k for k in (kinds or GEN_KINDS))))
+    res = run_tlc('MC_SwarmGen', cfg, pid, workers=1, simulate='num=%d' % (3 * n), depth=90, seed_arg=seed(), timeout=300, tag='gen')
+    if res['violation']:
+        raise ToolError('MC_SwarmGen: invariant violated while generating behaviours:\n' + res['stdout'][-2000:])
+    scripts = [tuple(map(lambda mv: tuple(tuple(sorted(x)) if isinstance(x, list) else x for x in mv), v[1])) for v in tlaval.find_printed(res['stdout'], 'SCRIPT')]
+    # keep maximal distinct scripts (a script is printed again for every state after the fuel ran out)
+    uniq = []
+    seen = set()
+    for sc in sorted(set(scripts), key=len, reverse=True):
+        if not any(sc == u[:len(sc)] for u in uniq):
+            uniq.append(sc)
+        if len(uniq) >= n:
+            break
+    return [G.from_model(sc, i) for i, sc in enumerate(uniq)], res
+
+
 def run_families(pid, plan, rng):
     scs = []
     for gen, n, kw in plan:
+        if gen == 'model':
+            ms, _ = model_scripts(pid, n, **kw)
+            scs.extend(ms)
+            continue
         for _ in range(n):
             scs.append(gen(rng, **kw))
     S = [sw.Scenario(s) for s in scs]
@@ -431,7 +461,8 @@ def swarm_check(pid, tier, plan, kinds, design_over=None, extra_oracles=(), vacu
         'rule': rule + ' Design level: TLC explores every interleaving of the bounded MC_Swarm instance (adversarial remotes, frame menu %s). '
                 'Implementation level: seeded scenario families run the real Session/PeerHandler/Connection stack on in-memory streams under a paused clock; '
                 'every recorded event is consumed by one action of Swarm.tla with the logged post-state (SwarmTrace.tla), all invariants are evaluated in every state; '
-                'wire/disk oracles are evaluated on the same runs.' % sorted(kinds),
+                'wire/disk oracles are evaluated on the same runs. Where the plan contains the family "model", the scripts are behaviours of MC_SwarmGen.tla generated by TLC -simulate '
+                '(history variable `script`) and replayed into the real client (specification -> implementation direction).' % sorted(kinds),
     }
     return V.finish(cov, list(assumptions) + ['in-memory duplex streams and a single-threaded runtime with paused clock replace TCP and the multi-threaded runtime',
                                             'block data is abstracted to good/corrupt in the specification; SHA-1 trusted',
@@ -446,7 +477,7 @@ def mult(tier):
 def check_c01(tier, replay=None):
     m = mult(tier)
     plan = [(G.adversarial, 40 * m, {'kinds': ['Unchoke', 'Unchoke', 'Choke', 'Piece', 'Piece', 'PieceBad', 'PieceOdd', 'Have', 'Bitfield', 'serve', 'advance', 'close']}),
-            (G.honest, 8 * m, {}), (G.upload, 8 * m, {})]
+            (G.honest, 8 * m, {}), (G.upload, 8 * m, {}), ('model', 20 * m, {})]
     return swarm_check('C01', tier, plan, ['Unchoke', 'Bitfield', 'Piece', 'Bad'],
                        design_over=dict(Fuel=3, BFMenu='{{1, 2}}') if tier == 'quick' else dict(Fuel=4, MaxQ=2),
                        vacuity={'completions': 10, 'bad_piece_exits': 1}, replay=replay,
@@ -466,7 +497,7 @@ def check_c02(tier, replay=None):
 
 def check_c08(tier, replay=None):
     m = mult(tier)
-    plan = [(G.handshakes, 40 * m, {}), (G.adversarial, 8 * m, {})]
+    plan = [(G.handshakes, 40 * m, {}), (G.adversarial, 8 * m, {}), ('model', 20 * m, {})]
     return swarm_check('C08', tier, plan, ['Handshake', 'Bad', 'Bitfield', 'Request'],
                        design_over=dict(HS0='FALSE', Fuel=3, BFMenu='{{1, 2}}') if tier == 'quick' else dict(HS0='FALSE', Fuel=5),
                        vacuity={'exits': 10}, replay=replay,
@@ -475,7 +506,7 @@ def check_c08(tier, replay=None):
 
 def check_c09(tier, replay=None):
     m = mult(tier)
-    plan = [(G.upload, 40 * m, {})]
+    plan = [(G.upload, 40 * m, {}), ('model', 12 * m, {})]
     return swarm_check('C09', tier, plan, ['Unchoke', 'Bitfield', 'Piece', 'Request'],
                        design_over=dict(NPieces=1, NBlocks='N1', Fuel=3, BFMenu='{{1}}') if tier == 'quick' else dict(NPieces=1, NBlocks='N1', Fuel=5, BFMenu='{{1}}', MaxQ=2),
                        vacuity={'pieces_served': 15}, replay=replay,
@@ -485,7 +516,7 @@ def check_c09(tier, replay=None):
 
 def check_c10(tier, replay=None):
     m = mult(tier)
-    plan = [(G.honest, 20 * m, {}), (G.adversarial, 25 * m, {})]
+    plan = [(G.honest, 20 * m, {}), (G.adversarial, 25 * m, {}), ('model', 20 * m, {})]
     return swarm_check('C10', tier, plan, ['Unchoke', 'Choke', 'Bitfield', 'Piece'],
                        design_over=dict(NBlocks='N3b', Fuel=6, Peers='{a}', BFMenu='{{1, 2}}') if tier == 'quick' else dict(NBlocks='N3b', Fuel=5, BFMenu='{{1, 2}}'),
                        vacuity={'requests_written': 100, 'completions': 20}, replay=replay,
@@ -504,7 +535,7 @@ def check_c11(tier, replay=None):
 
 def check_c12(tier, replay=None):
     m = mult(tier)
-    plan = [(G.adversarial, 60 * m, {}), (G.honest, 6 * m, {})]
+    plan = [(G.adversarial, 60 * m, {}), (G.honest, 6 * m, {}), ('model', 30 * m, {})]
     return swarm_check('C12', tier, plan, ['Unchoke', 'Choke', 'Bitfield', 'Piece'] if tier == 'quick' else ['Unchoke', 'Choke', 'Bitfield', 'Piece', 'Have', 'Bad'],
                        design_over=dict(Fuel=3, BFMenu='{{1, 2}}') if tier == 'quick' else dict(Fuel=4, MaxQ=2),
                        vacuity={'mgr_events': 500, 'completions': 5}, replay=replay,
@@ -514,7 +545,7 @@ def check_c12(tier, replay=None):
 
 def check_c13(tier, replay=None):
     m = mult(tier)
-    plan = [(G.adversarial, 30 * m, {}), (G.honest, 12 * m, {'gname': 'g12'}), (G.honest, 8 * m, {})]
+    plan = [(G.adversarial, 30 * m, {}), (G.honest, 12 * m, {'gname': 'g12'}), (G.honest, 8 * m, {}), ('model', 12 * m, {})]
     return swarm_check('C13', tier, plan, ['Unchoke', 'Bitfield', 'Have'],
                        design_over=dict(Fuel=2, NPieces=3, NBlocks='N1x3', BFMenu='{{1, 2}, {3}}') if tier == 'quick' else dict(Fuel=3, NPieces=3, NBlocks='N1x3', BFMenu='{{1, 2}, {3}, {1, 2, 3}}'),
                        vacuity={'mgr_events': 500}, replay=replay,
